@@ -510,7 +510,7 @@ Qed.
 (* ---------- DELETE PIPE + CREATE PIPE under the same name: a new epoch with fresh positions ---------- *)
 Lemma recreate_quiescent s : quiescent s = true -> recreate s = init (log s) (length (log s)).
 Proof.
-  unfold quiescent, recreate, init. destruct (infl s); [|discriminate]. destruct (queue s); [|discriminate].
+  unfold quiescent, recreate, recreate_v, code_state_survives_delete, init. destruct (infl s); [|discriminate]. destruct (queue s); [|discriminate].
   intros H. apply andb_true_iff in H. destruct H as [H _]. apply Nat.eqb_eq in H. rewrite H. reflexivity.
 Qed.
 
